@@ -3,6 +3,7 @@ package main
 import (
 	"encoding/json"
 	"fmt"
+	"net/http"
 	"strings"
 
 	"github.com/fabiolb/fabio/route"
@@ -15,13 +16,26 @@ import (
 // the table skeleton (host keys, route paths in table order, targets), the matching host list, and the
 // (route host, route path, service, url) of the returned target or null.
 type lookupIn struct {
-	Defs    []rt.Def               `json:"defs"`
-	Text    bool                   `json:"text,omitempty"` // build through the command-language parser
-	Host    string                 `json:"host"`
-	TLS     bool                   `json:"tls"`
-	Path    string                 `json:"path"`
-	Matcher string                 `json:"matcher"`
-	NoGlob  bool                   `json:"noglob"`
+	Defs    []rt.Def `json:"defs"`
+	Text    bool     `json:"text,omitempty"` // build through the command-language parser
+	Host    string   `json:"host"`
+	TLS     bool     `json:"tls"`
+	Path    string   `json:"path"`
+	Matcher string   `json:"matcher"`
+	NoGlob  bool     `json:"noglob"`
+	// request headers that describe the connection as a proxy in front of fabio saw it (X-Forwarded-Proto,
+	// X-Forwarded-Host, X-Forwarded-Port, Forwarded). Routing looks at Host, the connection (TLS or not) and
+	// the path only: the model does not read this field.
+	Headers map[string]string `json:"headers,omitempty"`
+}
+
+// request builds the request value of the case: Host, TLS state, path and the headers.
+func (in *lookupIn) request() *http.Request {
+	req := route.VerifRequest(in.Host, in.TLS, in.Path)
+	for k, v := range in.Headers {
+		req.Header.Set(k, v)
+	}
+	return req
 }
 
 type skRoute struct {
@@ -135,7 +149,7 @@ func runLookup(raw json.RawMessage) (res interface{}, err error) {
 		gc = route.NewGlobCache(3) // small on purpose: eviction happens within one lookup
 	}
 	out := map[string]interface{}{"table": skeleton(t), "oracle": orc}
-	hosts := route.VerifMatchingHosts(t, route.VerifRequest(in.Host, in.TLS, in.Path), gc)
+	hosts := route.VerifMatchingHosts(t, in.request(), gc)
 	if hosts == nil {
 		hosts = []string{}
 	}
@@ -146,7 +160,7 @@ func runLookup(raw json.RawMessage) (res interface{}, err error) {
 	} else {
 		gc2 = route.NewGlobCache(1) // Lookup must not touch it
 	}
-	tg := t.Lookup(route.VerifRequest(in.Host, in.TLS, in.Path), "", route.Picker["rr"], match, gc2, in.NoGlob)
+	tg := t.Lookup(in.request(), "", route.Picker["rr"], match, gc2, in.NoGlob)
 	if tg == nil {
 		out["res"] = nil
 		return out, nil
@@ -178,6 +192,35 @@ var (
 	rqPorts  = []string{"", "", "", ":80", ":80", ":443", ":443", ":8443", ":8080"}
 	matchers = []string{"prefix", "prefix", "prefix", "iprefix", "iprefix", "iprefix", "glob", "glob"}
 )
+
+// nested wildcard families: keys that are suffixes of one another ("a longer host suffix beats a shorter
+// one"), with and without explicit ports, with the characters that sort around '*' and ':' in front of the
+// common suffix, and request hosts that most of them match.
+var (
+	nestTails = []string{".foo.com", ".foo.com", "foo.com", ".com", ""}
+	nestPorts = []string{"", "", ":8443", ":8443", ":8080", ":80", ":443"}
+	nestHeads = []string{"*", "*", "*", "*.*", "*.*", "*-*", "*.a", "*.a", "*-eu", "*-eu.*", "*.b.a", "**", "*a*", "*1*", "*!", "*$", "*(", "*.*.*", "a*", "?*", "[ab]", "{a,b}", "*.[ab]", "b.*"}
+	nestSubs  = []string{"a", "b", "x", "a.b", "b.a", "c.b.a", "b-eu", "x-eu.a", "a!", "b$", "x(", "1", "a1b", "b.a.b"}
+)
+
+func genNest(r *hx.Rand) (fam []string, hosts []string) {
+	tail := r.Pick(nestTails)
+	port := r.Pick(nestPorts)
+	for k := 2 + r.Intn(3); k > 0; k-- {
+		p := port
+		if r.Chance(1, 6) {
+			p = r.Pick(nestPorts)
+		}
+		fam = append(fam, r.Pick(nestHeads)+tail+p)
+	}
+	if r.Chance(1, 4) {
+		fam = append(fam, strings.TrimPrefix(tail, ".")+port) // the exact host of the family
+	}
+	for k := 0; k < 3; k++ {
+		hosts = append(hosts, r.Pick(nestSubs)+tail+port)
+	}
+	return fam, hosts
+}
 
 func recase(r *hx.Rand, s string) string {
 	switch r.Intn(6) {
@@ -252,6 +295,16 @@ func genLookup(r *hx.Rand, i int) interface{} {
 			h = r.Pick(rtHostsB)
 		}
 		fam = append(fam, h)
+	}
+	var nestHosts []string
+	if r.Chance(1, 5) {
+		var nf []string
+		nf, nestHosts = genNest(r)
+		if r.Chance(1, 2) {
+			fam = nf
+		} else {
+			fam = append(fam[:1], nf...)
+		}
 	}
 	if r.Chance(2, 3) {
 		fam = append(fam, "")
@@ -352,7 +405,18 @@ func genLookup(r *hx.Rand, i int) interface{} {
 	}
 	v := adds[r.Intn(len(adds))]
 	vh, vp := route.VerifHostpath(v.Src)
-	if r.Chance(6, 7) {
+	if len(nestHosts) > 0 && r.Chance(3, 4) {
+		in.Host = r.Pick(nestHosts)
+		if r.Chance(1, 4) {
+			in.Host = recase(r, in.Host)
+		}
+		if i := strings.LastIndex(in.Host, ":"); i < 0 && r.Chance(1, 4) {
+			in.Host += ":80"
+			if in.TLS {
+				in.Host = strings.TrimSuffix(in.Host, ":80") + ":443"
+			}
+		}
+	} else if r.Chance(6, 7) {
 		k := vh
 		if k == "" || r.Chance(1, 5) {
 			k = r.Pick(fam)
@@ -376,6 +440,28 @@ func genLookup(r *hx.Rand, i int) interface{} {
 		}
 	} else {
 		in.Path = r.Pick([]string{"/", "/nomatch", "/foobar", "/FOO/BAR", "/foo/bar/baz", ""})
+	}
+	// one request in five carries headers of a proxy in front of fabio; half of those contradict the
+	// connection the request arrived on (plain connection, "https" in the header and vice versa)
+	if r.Chance(1, 5) {
+		in.Headers = map[string]string{}
+		proto, other := "http", "https"
+		if in.TLS {
+			proto, other = other, proto
+		}
+		if r.Chance(1, 2) {
+			proto = other
+		}
+		switch r.Intn(5) {
+		case 0, 1, 2:
+			in.Headers["X-Forwarded-Proto"] = proto
+		case 3:
+			in.Headers["X-Forwarded-Proto"] = proto
+			in.Headers["X-Forwarded-Port"] = map[string]string{"http": "80", "https": "443"}[proto]
+			in.Headers["X-Forwarded-Host"] = r.Pick(rqLabels) + r.Pick(rqPorts)
+		default:
+			in.Headers["Forwarded"] = "for=1.2.3.4; proto=" + proto + "; host=" + r.Pick(rqLabels)
+		}
 	}
 	return in
 }
